@@ -402,71 +402,43 @@ func ruleFlushCount(w *World, r *Report, pfx string, fi *flushInfo) {
 		r.Undecided(rule, "Flush argument", "", fi.Undecided)
 		return
 	}
-	var flushCall *ssa.Call
-	for _, b := range fi.Fn.Blocks {
-		for _, in := range b.Instrs {
-			if c, ok := in.(*ssa.Call); ok {
-				if sc := c.Call.StaticCallee(); sc != nil && sc.Name() == "Flush" && typeName(sc.Signature.Recv().Type()) == "cwriter.Writer" {
-					flushCall = c
-				}
-			}
-		}
-	}
-	if flushCall == nil {
+	if fi.FlushCall == nil {
 		r.Violated(rule, "Flush argument", w.pos(fi.Fn.Pos()), "flush never calls the writer's Flush")
 		return
 	}
-	arg := flushCall.Call.Args[1]
-	sub, ok := arg.(*ssa.BinOp)
-	okShape := ok && sub.Op == token.SUB
-	var rowsV ssa.Value
-	if okShape {
-		if lc, ok := sub.X.(*ssa.Call); ok && isBuiltinCall(&lc.Call, "len") {
-			rowsV = lc.Call.Args[0]
+	okShape := fi.PopCount != nil && fi.RowsPhi != nil
+	r.Check(okShape, rule, "Flush argument", w.instrPos(fi.FlushCall), "len(collected rows) - popped rows", "the line count handed to the writer is not (rows written) minus (rows popped): the next frame's cursor-up would be wrong by the popped rows (duplicated or overwritten lines)")
+	if !okShape {
+		return
+	}
+	// every collected row is written: a loop that reads rows[e(i)] into the writer and whose index walks the whole slice
+	okLoop := false
+	why := "no loop writes the collected rows"
+	for _, l := range naturalLoops(fi.Fn) {
+		if l.Blocks[fi.Header] || l.Header == fi.Header {
+			continue
+		}
+		reads := false
+		for b := range l.Blocks {
+			for _, in := range b.Instrs {
+				if c, ok := in.(*ssa.Call); ok {
+					if sc := c.Call.StaticCallee(); sc != nil && sc.Name() == "ReadFrom" {
+						reads = true
+					}
+				}
+			}
+		}
+		if !reads {
+			continue
+		}
+		iw := w.loopIndexWalk(l, fi.RowsPhi)
+		if iw.OK && iw.CoversAll {
+			okLoop = true
 		} else {
-			okShape = false
-		}
-		if fi.PopCount == nil || sub.Y != ssa.Value(fi.PopCount) {
-			okShape = false
+			why = orStr(iw.Why, "the output loop does not visit every index of the collected rows")
 		}
 	}
-	// rows must be the header phi of the row list (appended to in the collection loop)
-	if okShape {
-		phi, ok := rowsV.(*ssa.Phi)
-		if !ok || phi.Block() != fi.Header {
-			okShape = false
-		}
-	}
-	r.Check(okShape, rule, "Flush argument", w.instrPos(flushCall), "len(collected rows) - popped rows", "the line count handed to the writer is not (rows written) minus (rows popped): the next frame's cursor-up would be wrong by the popped rows (duplicated or overwritten lines)")
-	// every collected row is written: the output loop covers indices len-1..0 of the same slice and leaves early only on a write error
-	if okShape {
-		okLoop := false
-		for _, l := range naturalLoops(fi.Fn) {
-			if l.Blocks[fi.Header] || l.Header == fi.Header {
-				continue
-			}
-			// a loop that indexes rowsV with its induction variable and calls ReadFrom
-			reads, indexes := false, false
-			for b := range l.Blocks {
-				for _, in := range b.Instrs {
-					if c, ok := in.(*ssa.Call); ok {
-						if sc := c.Call.StaticCallee(); sc != nil && sc.Name() == "ReadFrom" {
-							reads = true
-						}
-					}
-					if ia, ok := in.(*ssa.IndexAddr); ok && ia.X == rowsV {
-						indexes = true
-					}
-				}
-			}
-			if reads && indexes {
-				if d := classifyCountingLoop(l); d.ok && d.coversAll(rowsV) {
-					okLoop = true
-				}
-			}
-		}
-		r.Check(okLoop, rule, "output loop", w.pos(fi.Fn.Pos()), "writes every collected row (index runs over the whole slice)", "the output loop does not write every collected row exactly once")
-	}
+	r.Check(okLoop, rule, "output loop", w.pos(fi.Fn.Pos()), "writes every collected row (index walks the whole slice)", "the output loop does not write every collected row exactly once: "+why)
 }
 
 type countingLoop struct {
